@@ -1622,14 +1622,14 @@ class Distribution(Generic[X], GFI[X, X]):
             log_density_ = self.logpdf(x_, *args, **kwargs)
             return (
                 Tr(self, (args, kwargs), x_, x_, -log_density_),
-                log_density_ + tr.get_score(),
+                jnp.sum(log_density_) + tr.get_score(),
                 tr.get_retval(),
             )
         else:
             log_density_ = self.logpdf(x_, *args, **kwargs)
             return (
                 Tr(self, (args, kwargs), x_, x_, -log_density_),
-                log_density_ + tr.get_score(),
+                jnp.sum(log_density_) + tr.get_score(),
                 tr.get_retval(),
             )
 
@@ -1650,7 +1650,7 @@ class Distribution(Generic[X], GFI[X, X]):
             log_density_ = self.logpdf(get_choices(tr), *args, **kwargs)
             return (
                 Tr(self, (args, kwargs), x_, x_, -log_density_),
-                log_density_ + tr.get_score(),
+                jnp.sum(log_density_) + tr.get_score(),
                 None,
             )
 
@@ -1968,7 +1968,7 @@ class Generate:
         )
         tr, weight = gen_fn.generate(x, *args, **kwargs)
         self.score += tr.get_score()
-        self.weight += weight
+        self.weight += jnp.sum(weight)
         self.trace_map[addr] = tr
         return tr.get_retval()
 
@@ -1997,7 +1997,7 @@ class Assess:
         x = self.choice_map[addr]
         x = get_choices(x)
         logp, r = gen_fn.assess(x, *args, **kwargs)
-        self.logp += logp
+        self.logp += jnp.sum(logp)
         return r
 
 
@@ -2037,7 +2037,7 @@ class Update(Generic[R]):
         self.trace_map[addr] = tr
         self.discard[addr] = discard
         self.score += tr.get_score()
-        self.weight += w
+        self.weight += jnp.sum(w)
         return tr.get_retval()
 
 
@@ -2073,7 +2073,7 @@ class Regenerate(Generic[R]):
         self.trace_map[addr] = tr
         self.discard[addr] = discard
         self.score += tr.get_score()
-        self.weight += w
+        self.weight += jnp.sum(w)
         return tr.get_retval()
 
 
